@@ -41,6 +41,9 @@ type Case struct {
 	NestAdditional bool            `json:"nest_additional"`
 	Via            int             `json:"via"` // 0 annotation, 1 service config, 2 both
 	Kind           string          `json:"kind"`
+	// NewPaths[i]: further paths instantiated from New[i] (wildcards often filled with a literal
+	// that a base rule spells at the same position), besides the fixed instantiation.
+	NewPaths [][]string `json:"new_paths,omitempty"`
 }
 
 func (c Case) newRule() *annotations.HttpRule {
@@ -268,12 +271,28 @@ func Check(c Case) ([]evid.Violation, info) {
 		return vs, in
 	}
 	// accepted: serve one instantiated path per binding
-	for _, bd := range c.New {
+	type inst struct {
+		bd   route.Binding
+		path string
+	}
+	var insts []inst
+	for i, bd := range c.New {
 		tm, perr := ref.ParseTemplate(bd.Tmpl)
 		if perr != nil {
 			continue
 		}
 		path, _ := route.InstantiateFixed(tm)
+		insts = append(insts, inst{bd, path})
+		if i < len(c.NewPaths) {
+			for _, p := range c.NewPaths[i] {
+				if len(tm.Match(p, 1)) > 0 { // the case may have been shrunk: only paths of this template
+					insts = append(insts, inst{bd, p})
+				}
+			}
+		}
+	}
+	for _, in2 := range insts {
+		bd, path := in2.bd, in2.path
 		verb := strings.ToUpper(bd.Verb)
 		if verb == "*" || verb == "" {
 			verb = "GET"
@@ -453,6 +472,22 @@ func genCase(t *rapid.T) Case {
 		c.New = append(c.New, c.New[pick])
 	case "implicit":
 		c.New[pick] = route.Binding{Verb: rapid.SampledFrom([]string{"POST", "GET", "*"}).Draw(t, "iv"), Tmpl: route.MethodName(len(c.Base)), Body: "*"}
+	}
+	if c.Kind == "valid" || c.Kind == "collision" || c.Kind == "twice" {
+		var baseT []*ref.Template
+		for _, ow := range c.Base.Owned(nil) {
+			baseT = append(baseT, ow.T)
+		}
+		for _, bd := range c.New {
+			var ps []string
+			if tm, err := ref.ParseTemplate(bd.Tmpl); err == nil && !tm.NestedVar && !tm.StarStarNotLast {
+				for k := 0; k < 2; k++ {
+					p, _ := route.Instantiate(t, tm, 3, baseT...)
+					ps = append(ps, p)
+				}
+			}
+			c.NewPaths = append(c.NewPaths, ps)
+		}
 	}
 	return c
 }
